@@ -28,3 +28,26 @@ Print Assumptions C04_rtf_surrogate_witness.
 Theorem C04_path_guarded : path_guard = true.
 Proof. vm_compute. reflexivity. Qed.
 Print Assumptions C04_path_guarded.
+
+From S2T Require Import C04.ModelRtfText.
+(* premise of C04_props_unchanged_rtf: get_value decodes \uN (fixes/C04-rtf-info-unicode.patch) *)
+Theorem C04_rtf_info_unicode : info_unicode = true.
+Proof. vm_compute. reflexivity. Qed.
+Print Assumptions C04_rtf_info_unicode.
+
+Theorem C04_rtf_info_witness :
+  info_value decval_g isspace_g (fun c => memN c az_ci_table) info_unicode (repair rtf_T)
+    (s "Pr" ++ [92] ++ s "u8364?is " ++ [92] ++ s "u55357?" ++ [92] ++ s "u56832? J" ++ [92] ++ s "'fcrgen Z")
+  = Ok ([80; 114; 0x20AC; 105; 115; 32; 0x1F600; 32; 74; 0xFC] ++ s "rgen Z").
+Proof. vm_compute. reflexivity. Qed.
+Print Assumptions C04_rtf_info_witness.
+
+Theorem C04_rtf_simple_witness :
+  strip_simple decval_g isspace_g (fun c => memN c az_ci_table) rtf_T emoji_rtf = Ok [0x1F600; 32; 120].
+Proof. vm_compute. reflexivity. Qed.
+Print Assumptions C04_rtf_simple_witness.
+
+(* premise of C04_xls_summary_total: OLE text is decoded with the recorded code page, never raising *)
+Theorem C04_ole_cp_aware : ole_cp_aware = true.
+Proof. vm_compute. reflexivity. Qed.
+Print Assumptions C04_ole_cp_aware.
